@@ -162,13 +162,16 @@ def task_affine(shape):
             U, ks = H.sym_vector(ctx, shape)
             s, a = ctx.sym("s"), ctx.sym("a")
             k = chk.call(KV, list(U))
+            chk.call(lambda: (k.knots, k.limits))          # inspected first: answers after the maps must not be stale
             chk.call(k.scale, s)
+            chk.call(lambda: k.knots)
             chk.call(k.shift, a)
             want = [u * s + a for u in U]
             got = list(k)
             chk.identities("affine-knots", [("len", len(got), len(want)), ("degree", k.degree, p), ("npts", k.npts, n)] +
                            [("U[%d]" % i, g, w) for i, (g, w) in enumerate(zip(got, want))])
             kn = chk.call(lambda: k.knots)
+            chk.identities("affine-distinct-knots", [("nknots", len(kn), nk)] + [("knots[%d]" % i, g, w * s + a) for i, (g, w) in enumerate(zip(kn, ks))])
             mm = chk.call(k.mult, tuple(kn))
             chk.identities("affine-multiplicities", [("nknots", len(kn), nk)] + [("mult[%d]" % i, m, w) for i, (m, w) in enumerate(zip(mm, [p + 1] + list(mults) + [p + 1]))])
             # invariance of the basis: N_i over sU+a at st+a equals N_i over U at t (real evaluation code on both)
@@ -188,11 +191,14 @@ def task_affine(shape):
     def body_n(chk):
         U, ks = H.sym_vector(ctx, shape)
         k = chk.call(KV, list(U))
+        chk.call(lambda: (k.knots, k.limits))
         r = chk.call(k.normalize)
         L = ks[-1] - ks[0]
         want = [(u - ks[0]) / L for u in U]
         chk.identities("normalize", [("U[%d]" % i, g, w) for i, (g, w) in enumerate(zip(list(k), want))] +
                        [("umin", k[0], 0), ("umax", k[-1], 1), ("degree", k.degree, p), ("npts", k.npts, n)])
+        kn = chk.call(lambda: k.knots)
+        chk.identities("normalize-distinct-knots", [("knots[%d]" % i, g, (w - ks[0]) / L) for i, (g, w) in enumerate(zip(kn, ks))])
         chk.add("normalize-returns-self", r is k, "normalize returns the same instance")
         chk.exact("normalize-exact", list(k))
 
